@@ -29,11 +29,20 @@ structure NamesIn (S : Name → Prop) (c : Chart) : Prop where
   transS : ∀ t ∈ c.transitions, S t.source
   transT : ∀ t ∈ c.transitions, ∀ g, t.target = some g → S g
 
-def Trans.rename (ρ : Name → Name) (t : Trans) : Trans :=
-  { t with source := ρ t.source, target := t.target.map ρ }
+/-- a transition with its ends substituted and another identity -/
+def Trans.relabel (ρ : Name → Name) (ι : Nat → Nat) (t : Trans) : Trans :=
+  { t with id := ι t.id, source := ρ t.source, target := t.target.map ρ }
 
-theorem mapNames_transitions (ρ : Name → Name) (c : Chart) :
-    (c.mapNames ρ).transitions = c.transitions.map (Trans.rename ρ) := rfl
+/-- `c'` is `c` with every state name substituted by `ρ` and every transition re-identified by `ι`
+    (`c.mapNames ρ` is the case `ι = id`) -/
+structure IsRen (ρ : Name → Name) (ι : Nat → Nat) (c c' : Chart) : Prop where
+  states : c'.states = c.states.map (StateDef.rename ρ)
+  parent : c'.parent = c.parent.map (fun p => (ρ p.1, p.2.map ρ))
+  children : c'.children = c.children.map (fun p => (p.1.map ρ, p.2.map ρ))
+  transitions : c'.transitions = c.transitions.map (Trans.relabel ρ ι)
+
+theorem isRen_mapNames (ρ : Name → Name) (c : Chart) : IsRen ρ id c (c.mapNames ρ) :=
+  ⟨rfl, rfl, rfl, rfl⟩
 
 section
 variable {S : Name → Prop}
@@ -69,7 +78,7 @@ theorem NamesIn.ancF_in {c : Chart} (hc : NamesIn S c) : ∀ (f : Nat) (n x : Na
 end
 
 section
-variable {S : Name → Prop} {ρ : Name → Name} (hρ : RenOK S ρ)
+variable {S : Name → Prop} {ρ : Name → Name} {ι : Nat → Nat} (hρ : RenOK S ρ)
 include hρ
 
 theorem RenOK.beq (a b : Name) (ha : S a) (hb : S b) : (ρ a == ρ b) = (a == b) := by
@@ -100,9 +109,9 @@ theorem RenOK.mem (l : List Name) (x : Name) (hl : ∀ y ∈ l, S y) (hx : S x) 
 
 /-! ### dictionary lookups -/
 
-theorem stateFor_mapNames (c : Chart) (hc : NamesIn S c) (n : Name) (hn : S n) :
-    (c.mapNames ρ).stateFor (ρ n) = (c.stateFor n).map (StateDef.rename ρ) := by
-  simp only [Chart.stateFor, Chart.mapNames]
+theorem stateFor_mapNames (c : Chart) (hc : NamesIn S c) {c' : Chart} (hr : IsRen ρ ι c c') (n : Name) (hn : S n) :
+    c'.stateFor (ρ n) = (c.stateFor n).map (StateDef.rename ρ) := by
+  simp only [Chart.stateFor, hr.states]
   have : ∀ l : List StateDef, (∀ s ∈ l, S s.name) →
       (l.map (StateDef.rename ρ)).find? (fun s => s.name == ρ n) =
         (l.find? (fun s => s.name == n)).map (StateDef.rename ρ) := by
@@ -122,18 +131,18 @@ theorem stateFor_mapNames (c : Chart) (hc : NamesIn S c) (n : Name) (hn : S n) :
       · exact ih (fun s hs => hl s (by simp [hs]))
   exact this c.states hc.states
 
-theorem hasState_mapNames (c : Chart) (hc : NamesIn S c) (n : Name) (hn : S n) :
-    (c.mapNames ρ).hasState (ρ n) = c.hasState n := by
-  simp [Chart.hasState, stateFor_mapNames hρ c hc n hn]
+theorem hasState_mapNames (c : Chart) (hc : NamesIn S c) {c' : Chart} (hr : IsRen ρ ι c c') (n : Name) (hn : S n) :
+    c'.hasState (ρ n) = c.hasState n := by
+  simp [Chart.hasState, stateFor_mapNames hρ c hc hr n hn]
 
-theorem kindOf_mapNames (c : Chart) (hc : NamesIn S c) (n : Name) (hn : S n) :
-    (c.mapNames ρ).kindOf (ρ n) = c.kindOf n := by
-  simp only [Chart.kindOf, stateFor_mapNames hρ c hc n hn, Option.map_map]
+theorem kindOf_mapNames (c : Chart) (hc : NamesIn S c) {c' : Chart} (hr : IsRen ρ ι c c') (n : Name) (hn : S n) :
+    c'.kindOf (ρ n) = c.kindOf n := by
+  simp only [Chart.kindOf, stateFor_mapNames hρ c hc hr n hn, Option.map_map]
   congr 1
 
-theorem parentFor_mapNames (c : Chart) (hc : NamesIn S c) (n : Name) (hn : S n) :
-    (c.mapNames ρ).parentFor (ρ n) = (c.parentFor n).map ρ := by
-  simp only [Chart.parentFor, Chart.mapNames]
+theorem parentFor_mapNames (c : Chart) (hc : NamesIn S c) {c' : Chart} (hr : IsRen ρ ι c c') (n : Name) (hn : S n) :
+    c'.parentFor (ρ n) = (c.parentFor n).map ρ := by
+  simp only [Chart.parentFor, hr.parent]
   have : ∀ l : List (Name × Option Name), (∀ p ∈ l, S p.1) →
       (l.map (fun p => (ρ p.1, p.2.map ρ))).find? (fun p => p.1 == ρ n) =
         (l.find? (fun p => p.1 == n)).map (fun p => (ρ p.1, p.2.map ρ)) := by
@@ -153,9 +162,9 @@ theorem parentFor_mapNames (c : Chart) (hc : NamesIn S c) (n : Name) (hn : S n) 
   | none => rfl
   | some p => rfl
 
-theorem childrenFor_mapNames (c : Chart) (hc : NamesIn S c) (n : Name) (hn : S n) :
-    (c.mapNames ρ).childrenFor (ρ n) = (c.childrenFor n).map ρ := by
-  simp only [Chart.childrenFor, Chart.mapNames]
+theorem childrenFor_mapNames (c : Chart) (hc : NamesIn S c) {c' : Chart} (hr : IsRen ρ ι c c') (n : Name) (hn : S n) :
+    c'.childrenFor (ρ n) = (c.childrenFor n).map ρ := by
+  simp only [Chart.childrenFor, hr.children]
   have : ∀ l : List (Option Name × List Name), (∀ p ∈ l, ∀ k, p.1 = some k → S k) →
       (l.map (fun p => (p.1.map ρ, p.2.map ρ))).find? (fun p => p.1 == some (ρ n)) =
         (l.find? (fun p => p.1 == some n)).map (fun p => (p.1.map ρ, p.2.map ρ)) := by
@@ -184,8 +193,8 @@ theorem childrenFor_mapNames (c : Chart) (hc : NamesIn S c) (n : Name) (hn : S n
   | some p => rfl
 
 omit hρ in
-theorem root_mapNames (c : Chart) : (c.mapNames ρ).root = c.root.map ρ := by
-  simp only [Chart.root, Chart.mapNames]
+theorem root_mapNames (c : Chart) {c' : Chart} (hr : IsRen ρ ι c c') : c'.root = c.root.map ρ := by
+  simp only [Chart.root, hr.parent]
   have : ∀ l : List (Name × Option Name),
       ((l.map (fun p => (ρ p.1, p.2.map ρ))).find? (fun p => p.2 == none)).map (·.1) =
         ((l.find? (fun p => p.2 == none)).map (·.1)).map ρ := by
@@ -204,52 +213,52 @@ theorem root_mapNames (c : Chart) : (c.mapNames ρ).root = c.root.map ρ := by
 end
 
 section
-variable {S : Name → Prop} {ρ : Name → Name} (hρ : RenOK S ρ)
+variable {S : Name → Prop} {ρ : Name → Name} {ι : Nat → Nat} (hρ : RenOK S ρ)
 include hρ
 
 /-! ### the hierarchy -/
 
-theorem ancF_mapNames (c : Chart) (hc : NamesIn S c) : ∀ (f : Nat) (n : Name), S n →
-    (c.mapNames ρ).ancF f (ρ n) = (c.ancF f n).map ρ
+theorem ancF_mapNames (c : Chart) (hc : NamesIn S c) {c' : Chart} (hr : IsRen ρ ι c c') : ∀ (f : Nat) (n : Name), S n →
+    c'.ancF f (ρ n) = (c.ancF f n).map ρ
   | 0, _, _ => rfl
   | f+1, n, hn => by
-    simp only [Chart.ancF, parentFor_mapNames hρ c hc n hn]
+    simp only [Chart.ancF, parentFor_mapNames hρ c hc hr n hn]
     cases hp : c.parentFor n with
     | none => rfl
     | some p =>
       simp only [Option.map_some, List.map_cons]
-      rw [ancF_mapNames c hc f p (hc.parentFor_in n p hp)]
+      rw [ancF_mapNames c hc hr f p (hc.parentFor_in n p hp)]
 
 omit hρ in
-theorem mapNames_states_length (c : Chart) : (c.mapNames ρ).states.length = c.states.length := by
-  simp [Chart.mapNames]
+theorem mapNames_states_length (c : Chart) {c' : Chart} (hr : IsRen ρ ι c c') : c'.states.length = c.states.length := by
+  simp [hr.states]
 
-theorem ancestors_mapNames (c : Chart) (hc : NamesIn S c) (n : Name) (hn : S n) :
-    (c.mapNames ρ).ancestors (ρ n) = (c.ancestors n).map ρ := by
-  simp only [Chart.ancestors, mapNames_states_length]
-  exact ancF_mapNames hρ c hc _ n hn
+theorem ancestors_mapNames (c : Chart) (hc : NamesIn S c) {c' : Chart} (hr : IsRen ρ ι c c') (n : Name) (hn : S n) :
+    c'.ancestors (ρ n) = (c.ancestors n).map ρ := by
+  simp only [Chart.ancestors, mapNames_states_length c hr]
+  exact ancF_mapNames hρ c hc hr _ n hn
 
-theorem depth_mapNames (c : Chart) (hc : NamesIn S c) (n : Name) (hn : S n) :
-    (c.mapNames ρ).depth (ρ n) = c.depth n := by
-  simp [Chart.depth, ancestors_mapNames hρ c hc n hn]
+theorem depth_mapNames (c : Chart) (hc : NamesIn S c) {c' : Chart} (hr : IsRen ρ ι c c') (n : Name) (hn : S n) :
+    c'.depth (ρ n) = c.depth n := by
+  simp [Chart.depth, ancestors_mapNames hρ c hc hr n hn]
 
-theorem descF_mapNames (c : Chart) (hc : NamesIn S c) : ∀ (f : Nat) (l : List Name), (∀ x ∈ l, S x) →
-    (c.mapNames ρ).descF f (l.map ρ) = (c.descF f l).map ρ
+theorem descF_mapNames (c : Chart) (hc : NamesIn S c) {c' : Chart} (hr : IsRen ρ ι c c') : ∀ (f : Nat) (l : List Name), (∀ x ∈ l, S x) →
+    c'.descF f (l.map ρ) = (c.descF f l).map ρ
   | 0, _, _ => rfl
   | _+1, [], _ => rfl
   | f+1, n :: rest, hl => by
     have hn : S n := hl n (by simp)
-    simp only [List.map_cons, Chart.descF, childrenFor_mapNames hρ c hc n hn, List.map_append]
-    rw [← List.map_append, descF_mapNames c hc f (rest ++ c.childrenFor n)]
+    simp only [List.map_cons, Chart.descF, childrenFor_mapNames hρ c hc hr n hn, List.map_append]
+    rw [← List.map_append, descF_mapNames c hc hr f (rest ++ c.childrenFor n)]
     intro x hx
     rcases List.mem_append.1 hx with h | h
     · exact hl x (by simp [h])
     · exact hc.childrenFor_in n x h
 
-theorem descendants_mapNames (c : Chart) (hc : NamesIn S c) (n : Name) (hn : S n) :
-    (c.mapNames ρ).descendants (ρ n) = (c.descendants n).map ρ := by
-  simp only [Chart.descendants, mapNames_states_length]
-  exact descF_mapNames hρ c hc _ [n] (by simpa using hn)
+theorem descendants_mapNames (c : Chart) (hc : NamesIn S c) {c' : Chart} (hr : IsRen ρ ι c c') (n : Name) (hn : S n) :
+    c'.descendants (ρ n) = (c.descendants n).map ρ := by
+  simp only [Chart.descendants, mapNames_states_length c hr]
+  exact descF_mapNames hρ c hc hr _ [n] (by simpa using hn)
 
 end
 
@@ -275,7 +284,7 @@ theorem NamesIn.ancestors_in {c : Chart} (hc : NamesIn S c) (n x : Name) (h : x 
 end
 
 section
-variable {S : Name → Prop} {ρ : Name → Name} (hρ : RenOK S ρ)
+variable {S : Name → Prop} {ρ : Name → Name} {ι : Nat → Nat} (hρ : RenOK S ρ)
 include hρ
 
 theorem find?_contains_map (bs : List Name) (hb : ∀ y ∈ bs, S y) : ∀ (l : List Name), (∀ y ∈ l, S y) →
@@ -287,9 +296,9 @@ theorem find?_contains_map (bs : List Name) (hb : ∀ y ∈ bs, S y) : ∀ (l : 
     · rfl
     · exact find?_contains_map bs hb ys (fun z hz => hl z (by simp [hz]))
 
-theorem lca_mapNames (c : Chart) (hc : NamesIn S c) (a b : Name) (ha : S a) (hb : S b) :
-    (c.mapNames ρ).lca (ρ a) (ρ b) = (c.lca a b).map ρ := by
-  simp only [Chart.lca, ancestors_mapNames hρ c hc a ha, ancestors_mapNames hρ c hc b hb]
+theorem lca_mapNames (c : Chart) (hc : NamesIn S c) {c' : Chart} (hr : IsRen ρ ι c c') (a b : Name) (ha : S a) (hb : S b) :
+    c'.lca (ρ a) (ρ b) = (c.lca a b).map ρ := by
+  simp only [Chart.lca, ancestors_mapNames hρ c hc hr a ha, ancestors_mapNames hρ c hc hr b hb]
   exact find?_contains_map hρ _ (fun y hy => hc.ancestors_in b y hy) _ (fun y hy => hc.ancestors_in a y hy)
 
 theorem any_contains_map (names : List Name) (hn : ∀ y ∈ names, S y) : ∀ (l : List Name), (∀ y ∈ l, S y) →
@@ -299,11 +308,11 @@ theorem any_contains_map (names : List Name) (hn : ∀ y ∈ names, S y) : ∀ (
     simp only [List.map_cons, List.any_cons, hρ.contains names y hn (hl y (by simp))]
     rw [any_contains_map names hn ys (fun z hz => hl z (by simp [hz]))]
 
-theorem leafFor_mapNames (c : Chart) (hc : NamesIn S c) (names : List Name) (hn : ∀ y ∈ names, S y) :
-    (c.mapNames ρ).leafFor (names.map ρ) = (c.leafFor names).map ρ := by
+theorem leafFor_mapNames (c : Chart) (hc : NamesIn S c) {c' : Chart} (hr : IsRen ρ ι c c') (names : List Name) (hn : ∀ y ∈ names, S y) :
+    c'.leafFor (names.map ρ) = (c.leafFor names).map ρ := by
   simp only [Chart.leafFor]
   have : ∀ l : List Name, (∀ y ∈ l, S y) →
-      (l.map ρ).filter (fun n => !((c.mapNames ρ).descendants n).any (fun d => (names.map ρ).contains d)) =
+      (l.map ρ).filter (fun n => !(c'.descendants n).any (fun d => (names.map ρ).contains d)) =
         (l.filter (fun n => !(c.descendants n).any (fun d => names.contains d))).map ρ := by
     intro l
     induction l with
@@ -311,7 +320,7 @@ theorem leafFor_mapNames (c : Chart) (hc : NamesIn S c) (names : List Name) (hn 
     | cons y ys ih =>
       intro hl
       have hy : S y := hl y (by simp)
-      simp only [List.map_cons, List.filter_cons, descendants_mapNames hρ c hc y hy,
+      simp only [List.map_cons, List.filter_cons, descendants_mapNames hρ c hc hr y hy,
         any_contains_map hρ names hn _ (fun z hz => hc.descendants_in y z hz)]
       split
       · simp only [List.map_cons]; rw [ih (fun z hz => hl z (by simp [hz]))]
@@ -345,13 +354,13 @@ theorem isort_map {α β : Type} (g : α → β) (le : α → α → Bool) (le' 
       have := (mem_isort le xs y).1 hy
       simp [this]))
 
-theorem leDepthName_mapNames (c : Chart) (hc : NamesIn S c) (a b : Name) (ha : S a) (hb : S b) :
-    (c.mapNames ρ).leDepthName (ρ a) (ρ b) = c.leDepthName a b := by
-  simp only [Chart.leDepthName, depth_mapNames hρ c hc a ha, depth_mapNames hρ c hc b hb, hρ.mono a b ha hb]
+theorem leDepthName_mapNames (c : Chart) (hc : NamesIn S c) {c' : Chart} (hr : IsRen ρ ι c c') (a b : Name) (ha : S a) (hb : S b) :
+    c'.leDepthName (ρ a) (ρ b) = c.leDepthName a b := by
+  simp only [Chart.leDepthName, depth_mapNames hρ c hc hr a ha, depth_mapNames hρ c hc hr b hb, hρ.mono a b ha hb]
 
-theorem leRevDepthName_mapNames (c : Chart) (hc : NamesIn S c) (a b : Name) (ha : S a) (hb : S b) :
-    (c.mapNames ρ).leRevDepthName (ρ a) (ρ b) = c.leRevDepthName a b := by
-  simp only [Chart.leRevDepthName, depth_mapNames hρ c hc a ha, depth_mapNames hρ c hc b hb, hρ.mono a b ha hb]
+theorem leRevDepthName_mapNames (c : Chart) (hc : NamesIn S c) {c' : Chart} (hr : IsRen ρ ι c c') (a b : Name) (ha : S a) (hb : S b) :
+    c'.leRevDepthName (ρ a) (ρ b) = c.leRevDepthName a b := by
+  simp only [Chart.leRevDepthName, depth_mapNames hρ c hc hr a ha, depth_mapNames hρ c hc hr b hb, hρ.mono a b ha hb]
 
 end
 
